@@ -145,6 +145,7 @@ structure Sim where
   lastValue : Option Nat := none   -- register value according to the last segment event
   sawStop : Bool := false
   unknownIssued : Bool := false
+  bigReplyIssued : Bool := false
   valueMethodDone : Bool := false
   wglBudget : Bool := false
   exact : Bool := true
@@ -226,7 +227,7 @@ def invisibleCands (st : State o) (target : Label) (first : List Nat) : List Lab
   | .execCancel _ => first.map Label.closeSeen ++ progress ++ rest
   | .recvReply _ => first.map Label.deliver ++ first.map Label.sendFail ++ first.map Label.purge ++ progress
       ++ first.map Label.closeSeen ++ rest
-  | _ => ids.map Label.sendFail ++ ids.map Label.enqueue ++ progress ++ ids.map Label.closeSeen ++ rest
+  | _ => ids.map Label.sendFail ++ ids.map Label.enqueue ++ progress ++ ids.map Label.closeSeen ++ rest ++ ids.map Label.report
 
 /-- candidates when the serve loop is about to notice a reply error: the error report first -/
 def errCands (st : State o) : List Label :=
@@ -351,9 +352,10 @@ def visibleEnabled {ob : Obj} (cfg : Cfg) (calls : List CallInfo) (st : State ob
 def modelServe {ob : Obj} (st : State ob) : String :=
   match st.loop with
   | .stopped .replyErr => "err:reply-maxsize"
+  -- the repaired variant keeps serving and reports the recorded reply error when serving ends
+  | .stopped .clientsGone => if st.errQ > 0 then "err:reply-maxsize" else "ok"
   | .stopped .recvFail => "err:req-deserialize"
   | .stopped .valueTaken => "ok:none"
-  | .stopped .clientsGone => "ok"
   | _ => "running"
 
 def modelLock {ob : Obj} (flavour : String) (st : State ob) : String :=
@@ -406,7 +408,7 @@ def parseFlavour (f : String) : Flavour :=
   match f with
   | "value" => .value | "ref" => .ref | "refmut" => .refMut | "shared" => .shared | _ => .sharedMut
 
-def onCase (name : String) (ws : List String) : Sim :=
+def onCase (variant : Variant) (name : String) (ws : List String) : Sim :=
   let tr := (kvGet ws "trait").getD "reg"
   let flavour := (kvGet ws "flavour").getD "refmut"
   let spawn := (kvNat ws "spawn").getD 0 == 1
@@ -419,7 +421,7 @@ def onCase (name : String) (ws : List String) : Sim :=
   let maxReq := specs.map (fun sp => field sp 1)
   let maxReply := specs.map (fun sp => field sp 2)
   let cfg : Cfg := { fl := parseFlavour flavour, spawn := spawn, cap := cap, failPolicy := policyFail,
-                     remote := fun i => (remote.drop i).head?.getD false, nclients := specs.length, variant := .pinned }
+                     remote := fun i => (remote.drop i).head?.getD false, nclients := specs.length, variant := variant }
   { name := name, tr := tr, flavour := flavour, spawn := spawn, cap := cap, init := init, policyFail := policyFail,
     remote := remote, maxReq := maxReq, maxReply := maxReply, cfg := cfg, st := some (Remoc.Rtc.init (RO tr init)),
     clientsAlive := specs.map (fun _ => true), lastValue := some init, exact := (kvNat ws "exact").getD 1 == 1 }
@@ -449,7 +451,7 @@ def onOpCall (s : Sim) (line : Nat) (ws : List String) : Sim :=
     let s := s.bump s!"call_m{m}"
     let s := if remote then s.bump "call_remote" else s.bump "call_local"
     let s := if bigReq then s.bump "oversize_request" else s
-    let s := if bigReply then s.bump "oversize_reply" else s
+    let s := if bigReply then { s with bigReplyIssued := true }.bump "oversize_reply" else s
     if m ≥ 5 then s.bump "unknown_method" else s
   | _ => s
 
@@ -585,7 +587,7 @@ def errorCause (s : Sim) (ci : CallInfo) : Option String :=
   else if s.valueMethodDone then some "target-consumed"
   else if s.ended then some "clients-dropped"
   else match s.served with
-    | some r => if r.startsWith "err:reply" then some "F6" else if r.startsWith "err:req" && s.policyFail then some "policy-fail"
+    | some r => if r == "err:reply-maxsize" && s.bigReplyIssued then some "F6" else if r.startsWith "err:req" && s.policyFail then some "policy-fail"
                 else if s.poisonedCl.contains ci.cl then some "F10" else some "server-returned"
     | none => if s.poisonedCl.contains ci.cl then some "F10" else none
 
@@ -674,23 +676,27 @@ def onAbandon (s : Sim) (line : Nat) (tag : Nat) : Sim :=
 def onServed (s : Sim) (line : Nat) (res : String) (target : String) : Sim :=
   let s := { s with served := some res, servedT := line }
   let s := s.bump s!"served_{(res.splitOn ":").head!}"
+  let lostAll := (List.range s.clientsAlive.length).all (fun j => !((s.clientsAlive.drop j).head?.getD false) || s.poisonedCl.contains j)
   let s :=
-    if res.startsWith "err:reply" then
-      if s.ended || s.valueMethodDone then s else
-      s.fail "c19" line s!"serve returned {res} after an over-size reply while clients are still connected: the server stops for all clients"
+    if !s.ended && !s.valueMethodDone && lostAll && s.poisonedCl != [] && !(res.startsWith "err:req") then
+      s.fail "c19" line s!"serve returned {res} because the last usable client was lost after an over-size request of that client (client channel permanently failed)"
+    else if res.startsWith "err:reply" then
+      if s.ended || s.valueMethodDone then s
+      else if res == "err:reply-maxsize" && s.bigReplyIssued then
+        s.fail "c19" line s!"serve returned {res} after an over-size reply while clients are still connected: the server stops for all clients"
+      else s.fail "c19" line s!"serve returned {res} although no reply exceeded its size limit and clients are still connected"
     else if res.startsWith "err:req" then
       if s.policyFail && s.unknownIssued then s else
       s.fail "c19" line s!"serve returned {res} although undecodable requests are to be ignored"
     else if res == "ok" && target == "none" then
       if s.valueMethodDone then s else s.fail "c19" line "serve returned without target although no by-value method ran"
     else if s.ended then s
-    else if (List.range s.clientsAlive.length).all (fun j => !((s.clientsAlive.drop j).head?.getD false) || s.poisonedCl.contains j) then
-      s.fail "c19" line s!"serve returned {res} because the last usable client was lost after an over-size request of that client (client channel permanently failed)"
     else s.fail "c19" line s!"serve returned {res} although clients are alive"
   s.withModel line s!"model: serve does not return {res} here" (fun st =>
     if res.startsWith "err:reply" then
       -- after the loop has ended (`self` method, clients gone) `serve` still reports a reply error
       if modelServe st == "ok:none" || modelServe st == "ok" then some st
+      else if s.cfg.variant == .fixed then enable s.cfg st .serveEnd [] (fun st' => modelServe st' == "err:reply-maxsize") 64
       else enable s.cfg st .serveErr [] (fun _ => true) 64
     else if res == "ok" && target == "none" then (if modelServe st == "ok:none" then some st else none)
     else if res.startsWith "err:req" then enableUntil s.cfg st (fun st' => modelServe st' == "err:req-deserialize") 64
@@ -842,6 +848,7 @@ end Sim
 structure RunAcc where
   sim : Sim := {}
   cases : Nat := 0
+  variant : Variant := .pinned
 
 def finishCase (s : Sim) : IO Unit := do
   if s.name != "" then
@@ -856,7 +863,7 @@ def stepLine (a : RunAcc) (n : Nat) (line : String) : IO RunAcc := do
   match ws with
   | "case" :: name :: rest =>
     finishCase a.sim
-    return { sim := Sim.onCase name rest, cases := a.cases + 1 }
+    return { a with sim := Sim.onCase a.variant name rest, cases := a.cases + 1 }
   | "op" :: rest => return { a with sim := s.onOp n rest }
   | ["ev", "inv", t] => return { a with sim := s.onInv n (t.toNat?.getD 0) }
   | "ev" :: "seg" :: t :: rest => return { a with sim := s.onSeg n (t.toNat?.getD 0) rest }
@@ -872,8 +879,11 @@ def stepLine (a : RunAcc) (n : Nat) (line : String) : IO RunAcc := do
   | "panic" :: rest => return { a with sim := s.fail "c12" n ("panic " ++ " ".intercalate rest) }
   | _ => return { a with sim := s }
 
-def main : IO Unit := do
+/-- `rtc` replays against the pinned error handling (a reply error makes `serve` return, F6);
+`rtc fixed` against the repaired one (`Variant.fixed`) -/
+def main (args : List String) : IO Unit := do
   let stdin ← IO.getStdin
-  lineLoop stdin ({} : RunAcc) 1 stepLine (fun a => do
+  let variant : Variant := if args.contains "fixed" then .fixed else .pinned
+  lineLoop stdin ({ variant := variant } : RunAcc) 1 stepLine (fun a => do
     finishCase a.sim
     IO.println s!"DONE cases={a.cases}")
